@@ -430,7 +430,12 @@ def run_cases(seed, tier):
         cs.append((f'r{i}_100', p, 100))
         if tier != 'quick' and i % 4 == 0:
             cs.append((f'r{i}_10000', p, 10000))
-    dist = {'named_machines': len(named),
+    # halting named machines whose halt jumps into an eraser: one-block-per-side tapes with single-entry rules
+    # (after seeded change C17-m4: the two-block sweep filter of src/prover.rs try_rule lost `rule.len() == 2`)
+    ers = gen.eraser_compositions()
+    for i, p in enumerate(ers):
+        cs.append((f'e{i}_1000', p, 1000))
+    dist = {'named_machines': len(named), 'eraser_compositions': len(ers),
             'tree_leaves_2x2_to_4x2_2x4_used': len(rand),
             'tree_leaf_totals(sim_lim 100)': totals,
             'tree_leaf_pool_sampled': len(pool), 'leaves_with_rule_application_in_rust_at_1000': len(ruled),
